@@ -34,6 +34,8 @@ def main():
             continue
         case = json.loads(line)
         _cfg._gen_nt.i = 0
+        from harness import common as _common
+        _common.TOKEN_WRAP = case.get("token_type")
         try:
             res = mod.impl(case)
         except BaseException as e:  # noqa
